@@ -542,11 +542,13 @@ class TeX(object):
         # Since the true content always comes first, we need to set
         # True to case 0 and False to case 1.
         elsefound = False
+        iscase = not isinstance(which, bool)
         if isinstance(which, bool):
             if which: which = 0
             else: which = 1
 
         cases = [[]]
+        elsecase = None
         nesting = 0
         correctly_terminated = False
         iterator = self.itertokens()
@@ -568,6 +570,7 @@ class TeX(object):
                 nesting -= 1
             elif not(nesting) and name == 'else':
                 cases.append([])
+                elsecase = cases[-1]
                 continue
             elif not(nesting) and name == 'or':
                 cases.append([])
@@ -580,6 +583,16 @@ class TeX(object):
 
         # else case for ifs without elses
         cases.append([])
+
+        # An \\ifcase whose selector is not one of the listed cases takes the
+        # \\else part if there is one and nothing otherwise
+        if iscase:
+            ncases = len(cases) - 1
+            if elsecase is not None:
+                ncases -= 1
+            if which < 0 or which >= ncases:
+                self.pushTokens(elsecase or [])
+                return
 
         # Push if-selected tokens back into tokenizer
         self.pushTokens(cases[which])
